@@ -220,7 +220,7 @@ def classify(history):
 
 async def execute(loop, history, *, backend="mem", users=USERS, tree=INITIAL_TREE, tmp=None, ipv6=False,
                   block_size=4, wait=2.0, settle=0.4, server_kw=None, snapshot_every_step=True,
-                  hooks=None, records=None):
+                  hooks=None, records=None, port=PORT):
     """Run a concrete history against a real server, comparing every step with the model.
     Raises Violation(sig, detail).  Returns list of per-step records."""
     host = "::1" if ipv6 else HOST
@@ -240,7 +240,8 @@ async def execute(loop, history, *, backend="mem", users=USERS, tree=INITIAL_TRE
         fac = harness.instrument(fac, ctl)
     server = aioftp.Server(ausers, path_io_factory=fac, wait_future_timeout=wait, block_size=block_size,
                            **(server_kw or {}))
-    await server.start(host, PORT)
+    await server.start(host, port)
+    port = server.server_port
     if backend == "mem":
         harness.mem_populate(server, tree)
         snap = lambda: harness.mem_tree(server)  # noqa: E731
@@ -248,7 +249,7 @@ async def execute(loop, history, *, backend="mem", users=USERS, tree=INITIAL_TRE
         harness.fs_populate(tmp, tree)
         snap = lambda: harness.fs_tree(tmp)  # noqa: E731
     m = Model(users, ipv6=ipv6, tree=tree)
-    c = Raw(host, PORT, patience=wait + 30)
+    c = Raw(host, port, patience=wait + 30)
     code, _ = await c.connect()
     if code != "220":
         raise Violation("walk/greeting", dict(code=code))
@@ -269,7 +270,7 @@ async def execute(loop, history, *, backend="mem", users=USERS, tree=INITIAL_TRE
                 await asyncio.sleep(settle)
                 m.dconn = True
             calls_before = ctl.n if ctl else 0
-            net_before = (len(loop.net.all_transports), len(loop.net.all_listeners))
+            net_before = (len(loop.net.all_transports), len(loop.net.all_listeners)) if loop is not None else None
             was_logged = m.logged()
             exp = m.step(v, arg, connect=connect or "never", payload=payload)
             line = (v + " " + arg) if arg != "" else v
